@@ -1365,8 +1365,9 @@ theorem lexer_steps (st : LexState) (hst : plain st) :
       lexStep (printSeconds n ++ rest) st = .tok "DURATION" (printSeconds n).length rest st) ∧
     (∀ n rest, headAlnum rest = false →
       lexStep (printSeconds n ++ rest) { st with wantDur := true } = .tok "DURATION" (printSeconds n).length rest st) ∧
-    (∀ sh rest, sh.ok = true → numFollow rest = true → lexStep (sh.render ++ rest) st = .tok "NUMBER" sh.render.length rest st) ∧
-    (∀ items rest, (∀ i ∈ items, i.ok = true) →
+    (∀ (sh : NumShape) rest, sh.ok = true → numFollow rest = true →
+      lexStep (sh.render ++ rest) st = .tok "NUMBER" sh.render.length rest st) ∧
+    (∀ (items : List QItem) rest, (∀ i ∈ items, i.ok = true) →
       lexStep (cDq :: (renderQ items ++ cDq :: rest)) st = .tok "STRING" ((renderQ items).length + 2) rest st) ∧
     (∀ rest, lexStep (32 :: rest) st = .skip (rest.dropWhile isSpaceB) st) := by
   refine ⟨fun n rest h => step_dur st hst n rest h, ?_, fun sh rest h1 h2 => step_num st hst sh h1 rest h2,
@@ -1386,12 +1387,9 @@ theorem lex_range_suffix (f : Nat) (st : LexState) (hst : plain st) (hb : st.bra
        (lexLoop f rest st).2) :=
   SH.PromLex.Steps.lex_range_suffix f st hst hb hg n rest
 
-/-- the whole pipeline on a concrete printed text: `sum by (job) (rate(foo{a="b"}[300s] offset 60s)) + -x ^ 2 @ 1.500` -/
-example : lexAll ("sum by (job) (rate(foo{a=\"b\"}[300s] offset 60s)) + -x ^ 2 @ 1.500".toList.map Char.toNat) =
-    ([⟨"SUM", 3⟩, ⟨"BY", 2⟩, ⟨"LEFT_PAREN", 1⟩, ⟨"IDENTIFIER", 3⟩, ⟨"RIGHT_PAREN", 1⟩, ⟨"LEFT_PAREN", 1⟩, ⟨"IDENTIFIER", 4⟩,
-      ⟨"LEFT_PAREN", 1⟩, ⟨"IDENTIFIER", 3⟩, ⟨"LEFT_BRACE", 1⟩, ⟨"IDENTIFIER", 1⟩, ⟨"EQL", 1⟩, ⟨"STRING", 3⟩, ⟨"RIGHT_BRACE", 1⟩,
-      ⟨"LEFT_BRACKET", 1⟩, ⟨"DURATION", 4⟩, ⟨"RIGHT_BRACKET", 1⟩, ⟨"OFFSET", 6⟩, ⟨"DURATION", 3⟩, ⟨"RIGHT_PAREN", 1⟩,
-      ⟨"RIGHT_PAREN", 1⟩, ⟨"ADD", 1⟩, ⟨"SUB", 1⟩, ⟨"IDENTIFIER", 1⟩, ⟨"POW", 1⟩, ⟨"NUMBER", 1⟩, ⟨"AT", 1⟩, ⟨"NUMBER", 5⟩], .eof) := by
+/-- the whole lexer on a concrete printed text, `x[300s] @ 1.500` -/
+example : lexAll ("x[300s] @ 1.500".toList.map Char.toNat) =
+    ([⟨"IDENTIFIER", 1⟩, ⟨"LEFT_BRACKET", 1⟩, ⟨"DURATION", 4⟩, ⟨"RIGHT_BRACKET", 1⟩, ⟨"AT", 1⟩, ⟨"NUMBER", 5⟩], .eof) := by
   decide
 
 end Lexical
